@@ -2,6 +2,7 @@ package sim
 
 import (
 	"fmt"
+	"github.com/mlange-42/ark/ecs"
 	"unsafe"
 )
 
@@ -12,7 +13,7 @@ import (
 
 // QMisuseKinds lists the sub-kinds of KQMisuse.
 var QMisuseKinds = []string{"get_before_next", "get_after_end", "get_after_close", "next_after_end", "next_twice_after_end", "entity_after_end", "entity_before_next",
-	"unsafe_get_missing", "unsafe_getrel_missing", "map_get_missing", "map_set_missing", "unsafe_query_get_after_end", "next_after_early_close", "mapn_set_missing"}
+	"unsafe_get_missing", "unsafe_getrel_missing", "map_get_missing", "map_set_missing", "unsafe_query_get_after_end", "next_after_early_close", "mapn_set_missing", "get_after_end_zerosize"}
 
 func (s *Sim) opQMisuse(op *Op) {
 	if s.lockDepth >= 60 {
@@ -20,6 +21,20 @@ func (s *Sim) opQMisuse(op *Op) {
 		return
 	}
 	switch op.M {
+	case "get_after_end_zerosize":
+		// Get() after the end of a typed query whose only generic component is zero-sized:
+		// nothing can be read through the pointer, so whether the call itself panics is all
+		// there is to observe
+		q := ecs.NewFilter1[T05](s.W).Query()
+		n := 0
+		for q.Next() {
+			n++
+		}
+		pn, _ := s.call(func() { q.Get() })
+		s.call(func() { q.Close() })
+		s.C.Faults["qmisuse_"+op.M]++
+		s.tracef("%d QMisuse %s panic=%v res=%d", s.OpIdx, op.M, pn, n)
+		return
 	case "mapn_set_missing":
 		// MapN.Set on an entity that has the first components of the tuple but lacks a later
 		// one: all builds panic; whatever the call wrote before is part of the result
